@@ -678,7 +678,7 @@ def catalogue(thorough=False):
         k += 0.5
     seen, out = set(), []
     for p in P:
-        key = core.h([p[0], enc(p[1]), [enc(a) for a in p[2]]])
+        key = core.h([p[0], enc(p[1]), [enc(a) for a in p[2]], p[3] if ":" in p[3] else ""])
         if key not in seen:
             seen.add(key)
             out.append(p)
